@@ -243,3 +243,6 @@ func (r *verifChunkReader) Read(p []byte) (int, error) {
 	r.data = r.data[n:]
 	return n, nil
 }
+
+// VerifFoldTable returns the byte folding table of the bitmap key matcher.
+func VerifFoldTable() [256]byte { return largeToSmallTable }
